@@ -68,6 +68,9 @@ def insertNulls (first : Bool) : List String → List Char → List String
 /-- `C08ins f=<fn> ins=<mask> ...`: the model on the base series, provided it agrees with the model
 on the series with nulls inserted (`MODELDIFF` otherwise: transparency would be false in the model) -/
 def c08 (base : List Handler) (fn : String) (r : Req) : Option (String × String) :=
+  -- `C08enc`: the implementation compares its own results under the two input encodings; the
+  -- expected answer does not depend on the request
+  if fn = "C08enc" then some ("EQ", "EQ") else
   if fn ≠ "C08ins" then none else
   let f := r.str "f"
   let xs := splitList (r.str "xs")
